@@ -6,12 +6,35 @@ pub struct Fp { acc: u128, n: u8 }
 #[derive(Default)]
 struct FpHasher(Fp);
 impl Hasher for FpHasher {
+    // loop-free (every loop pays the harness-wide unwind bound, and a change of the code under test that hashes a
+    // longer key must not turn into an "unwinding bound too small" verdict): up to 16 bytes, unrolled
     fn write(&mut self, bytes: &[u8]) {
-        for &b in bytes {
-            assert!(self.0.n < 16, "verif model bound: key feeds > 16 bytes to hasher");
-            self.0.acc = (self.0.acc << 8) | b as u128;
-            self.0.n += 1;
+        let n = bytes.len();
+        assert!(n <= 16 && self.0.n as usize + n <= 16, "verif model bound: key feeds > 16 bytes to hasher");
+        macro_rules! step {
+            ($i:expr) => {
+                if n > $i {
+                    self.0.acc = (self.0.acc << 8) | bytes[$i] as u128;
+                    self.0.n += 1;
+                }
+            };
         }
+        step!(0);
+        step!(1);
+        step!(2);
+        step!(3);
+        step!(4);
+        step!(5);
+        step!(6);
+        step!(7);
+        step!(8);
+        step!(9);
+        step!(10);
+        step!(11);
+        step!(12);
+        step!(13);
+        step!(14);
+        step!(15);
     }
     fn write_usize(&mut self, v: usize) { assert!(v < 256); self.write(&[v as u8]); }
     fn finish(&self) -> u64 { 0 }
